@@ -7,7 +7,7 @@
    A shape is  [cls, pts, tris, edges, labels, root, colours, tcoords, lms]  where the structure
    fields that a class does not have are empty.  Indices are 0-based as in the library. *)
 EXTENDS Mat, TLC, Json, CSV, IOUtils
-CONSTANTS Kinds, Dims, LmCfgs
+CONSTANTS Kinds, Dims, LmCfgs, Wide
 VARIABLES case, done
 R(n) == <<n,1>>
 Q(a,b) == Norm(a,b)
@@ -100,7 +100,12 @@ Islands == [pts |-> << <<R(0),R(0)>>, <<R(1),R(0)>>, <<R(0),R(1)>>, <<R(3),R(3)>
 Fin == [pts |-> << <<R(0),R(0),R(0)>>, <<R(2),R(0),R(0)>>, <<R(1),R(2),R(0)>>, <<R(1),R(-2),R(0)>>, <<R(1),R(0),R(2)>> >>, tris |-> <<<<0,1,2>>, <<1,0,3>>, <<0,1,4>>>>]   \* edge 0-1 shared by three triangles
 Tetra == [pts |-> << <<R(0),R(0),R(0)>>, <<R(2),R(0),R(0)>>, <<R(0),R(3),R(0)>>, <<R(0),R(0),R(1)>> >>, tris |-> <<<<0,2,1>>, <<0,1,3>>, <<1,2,3>>, <<0,3,2>>>>]   \* closed
 Grid3D == [pts |-> << <<R(0),R(0),R(1)>>, <<R(0),R(2),R(0)>>, <<R(3),R(0),R(2)>>, <<R(3),R(2),R(-1)>> >>, tris |-> <<<<0,2,3>>, <<0,3,1>>>>]
-MeshPool == [grid22 |-> Grid22, grid23 |-> Grid23, fan |-> Fan, islands |-> Islands, fin |-> Fin, tetra |-> Tetra, grid3d |-> Grid3D]
+Grid33 == [pts |-> << <<R(0),R(0)>>, <<R(0),R(1)>>, <<R(0),R(3)>>, <<R(2),R(0)>>, <<R(2),R(1)>>, <<R(2),R(3)>>, <<R(5),R(0)>>, <<R(5),R(1)>>, <<R(5),R(3)>> >>,
+           tris |-> <<<<0,3,4>>, <<0,4,1>>, <<1,4,5>>, <<1,5,2>>, <<3,6,7>>, <<3,7,4>>, <<4,7,8>>, <<4,8,5>>>>]
+Octa == [pts |-> << <<R(1),R(0),R(0)>>, <<R(-1),R(0),R(0)>>, <<R(0),R(2),R(0)>>, <<R(0),R(-2),R(0)>>, <<R(0),R(0),R(3)>>, <<R(0),R(0),R(-3)>> >>,
+         tris |-> <<<<0,2,4>>, <<2,1,4>>, <<1,3,4>>, <<3,0,4>>, <<2,0,5>>, <<1,2,5>>, <<3,1,5>>, <<0,3,5>>>>]     \* closed octahedron
+MeshPoolBase == [grid22 |-> Grid22, grid23 |-> Grid23, fan |-> Fan, islands |-> Islands, fin |-> Fin, tetra |-> Tetra, grid3d |-> Grid3D]
+MeshPool == IF Wide THEN MeshPoolBase @@ [grid33 |-> Grid33, octa |-> Octa] ELSE MeshPoolBase
 MeshClasses == {"TriMesh", "ColouredTriMesh", "TexturedTriMesh"}
 \* masking: kept triangles = all three vertices kept; vertices without a kept triangle are dropped; order-preserving renumbering
 KeptTris(m, vm) == SelectSeq(m.tris, LAMBDA t : vm[t[1]+1] /\ vm[t[2]+1] /\ vm[t[3]+1])
@@ -142,10 +147,10 @@ ApplyCases == {[kind |-> "apply", cls |-> Classes[c], d |-> d, lmcfg |-> l, t |-
                  {<<c, d, l, t>> \in (1..8) \X Dims \X LmCfgs \X (UNION {TransformsFor(dd) : dd \in Dims}) : t \in TransformsFor(d)}}
 VecCases == {[kind |-> "vec", cls |-> Classes[c], d |-> d, lmcfg |-> l] : c \in 1..8, d \in Dims, l \in {0, 9}}
 VMaskCases == {[kind |-> "vmask", mesh |-> m, cls |-> c, mask |-> vm] : <<m, c, vm>> \in
-                 {<<m, c, vm>> \in (DOMAIN MeshPool) \X MeshClasses \X (UNION {[1..n -> BOOLEAN] : n \in 4..7}) :
+                 {<<m, c, vm>> \in (DOMAIN MeshPool) \X MeshClasses \X (UNION {[1..n -> BOOLEAN] : n \in 4..9}) :
                     Len(vm) = Len(MeshPool[m].pts) /\ KeptTris(MeshPool[m], vm) # <<>>}}
 TMaskCases == {[kind |-> "tmask", mesh |-> m, cls |-> c, mask |-> tm] : <<m, c, tm>> \in
-                 {<<m, c, tm>> \in (DOMAIN MeshPool) \X MeshClasses \X (UNION {[1..n -> BOOLEAN] : n \in 2..4}) :
+                 {<<m, c, tm>> \in (DOMAIN MeshPool) \X MeshClasses \X (UNION {[1..n -> BOOLEAN] : n \in 2..8}) :
                     Len(tm) = Len(MeshPool[m].tris) /\ \E i \in 1..Len(tm) : tm[i]}}
 GeomCases == {[kind |-> "geom", mesh |-> m] : m \in DOMAIN MeshPool}
 Cases == (IF "apply" \in Kinds THEN ApplyCases ELSE {}) \cup (IF "vec" \in Kinds THEN VecCases ELSE {})
@@ -190,7 +195,7 @@ TMaskSound == case.kind = "tmask" => LET m == MeshPool[case.mesh] r == TriMaskRe
 GeomSound == case.kind = "geom" => LET m == MeshPool[case.mesh] g == MeshGeom(m) IN
    /\ \A i \in 1..Len(m.tris) : RLt(Z0, g.areas2[i])                                       \* non-degenerate pool
    /\ \A i \in 1..Len(m.tris) : Len(m.pts[1]) = 3 => Dot(g.normals[i], VSub(m.pts[m.tris[i][2]+1], m.pts[m.tris[i][1]+1])) = Z0
-   /\ (case.mesh = "tetra" => \A i \in 1..Len(m.tris) : ~g.boundary[i])
+   /\ (case.mesh \in {"tetra", "octa"} => \A i \in 1..Len(m.tris) : ~g.boundary[i])
    /\ (case.mesh = "islands" => \A i \in 1..Len(m.tris) : g.boundary[i])
    /\ Cardinality(g.uedges) * 2 >= Len(g.edges) \div 2
 =======================================================================
